@@ -3,7 +3,7 @@
 at quiescence in every trace of the C02 and C03 drivers; end to end, AgentTrace!MetricsBalance.  DESIGN.md section 5.11."""
 import json, random
 from lib import vlib
-from checks import agcommon as A, c01, fwdcommon as F, hbcommon as H, c02, c03
+from checks import agcommon as A, c01, fwdcommon as F, hbcommon as H, c02, c03, fncommon
 
 FLAGS = ("P19",)
 
@@ -34,9 +34,18 @@ def run(chk):
     scripts = A.stories() + [A.random_script("rnd%d" % i, rnd) for i in range(600 if thorough else 20)]
     n3, e3, rej3, consts = A.run_scripts(chk, scripts, FLAGS, "c19")
     A.handle(chk, rej3, FLAGS, "c19", consts)
-    cov.update({"traces_validated_against_impl": n1 + n2 + n3, "trace_events": e1 + e2 + e3, "evaluations": n1 + n2 + n3,
+    # attribution of labelled counters: programs of labelled transforms sharing label names on the real LogProcessCounterSet
+    d = chk.sub("lbwork")
+    rl = fncommon.run_fn(chk, "lb", "LabelsTrace", "LabelsTrace.cfg", extra_args=["-work", d], shards=8, max_findings_per_shard=3)
+    seenl = {}
+    for e, txt in rl["findings"]:
+        seenl.setdefault(e.get("ev"), e)
+    for k, e in seenl.items():
+        chk.report("labels:" + str(k), "labelled counters are not those of the records that caused them (LabelsTrace rejects): %s" % json.dumps(e)[:1500], {"event.json": e})
+    cov["label_attribution"] = {"programs": rl["cases"], "events": rl["events"]}
+    cov.update({"traces_validated_against_impl": n1 + n2 + n3 + 8, "trace_events": e1 + e2 + e3 + rl["events"], "evaluations": n1 + n2 + n3,
                 "distinct_nontrivial": len({json.dumps(s, sort_keys=True) for s in fs + hs + scripts}),
-                "rule": "forwarding-client fault scripts (Metrics event: forwarded / acknowledged / attempts / opened sessions / pendingAck and leftover gauges against the spec's counters), hybrid-buffer scripts (input, consumed, leftover, dropped, pending, persistent chunks and bytes, queued gauges, io errors after every shutdown) and end-to-end histories (input passed + dropped = lines, pipeline passed + dropped = input passed, per-host attribution, chunk balance accepted + recovered = consumed + leftover + dropped + pending, acknowledged = consumed <= upstream ACKs, forwarded <= chunks the upstream saw, persistent gauge = files on disk)",
+                "rule": "forwarding-client fault scripts (Metrics event: forwarded / acknowledged / attempts / opened sessions / pendingAck and leftover gauges against the spec's counters), hybrid-buffer scripts (input, consumed, leftover, dropped, pending, persistent chunks and bytes, queued gauges, io errors after every shutdown) and end-to-end histories (input passed + dropped = lines, pipeline passed + dropped = input passed, per-host attribution, chunk balance accepted + recovered = consumed + leftover + dropped + pending, acknowledged = consumed <= upstream ACKs, forwarded <= chunks the upstream saw, persistent gauge = files on disk); label attribution: every order of 3 and 4 labelled transforms (drop by level x2, redactEmail, parseTime) x every assignment of %d label names x 24 records over 2 metric-key values, labelled count and bytes per (label, key) against the interpretation of the program in LabelsTrace" % (3 if thorough else 2),
                 "samples": [fs[0], scripts[0]]})
     chk.assumptions += ["records dropped by extraction transforms inside the input (no counter exists) are not exercised by the end-to-end configuration",
                         "a rejection is a violation only if reproduced on a re-run"]
